@@ -520,9 +520,141 @@ pub fn build_history(g: &Genome, prog: &Program, cfg: &GenCfg) -> History {
 pub fn build_case(g: &Genome, cfg: &GenCfg) -> Case {
   let prog = build_program(g, cfg);
   let hist = build_history(g, &prog, cfg);
-  Case { prog, hist }
+  Case { prog, hist, inject: None }
 }
 
 pub fn case_strategy(cfg: GenCfg) -> impl Strategy<Value=Case> {
   genome_strategy(&cfg).prop_map(move |g| build_case(&g, &cfg))
+}
+
+// ---------------------------------------------------------------------------------------------------------------------
+// Injection operators (C05, C06, C07): take a well-formed program and add one violation.
+
+fn strip_writes(block: &mut Vec<Stmt>, g: ResId) {
+  block.retain(|s| !matches!(s, Stmt::Write { res: Target::Fixed(r), .. } if *r == g));
+  for s in block.iter_mut() {
+    if let Stmt::If { then, els, .. } = s { strip_writes(then, g); strip_writes(els, g); }
+  }
+}
+
+/// Picks (or creates) a generated resource and makes its designated writer write it unconditionally.
+fn unconditional_generated(prog: &mut Program, rd: &mut Rd) -> (ResId, TaskId) {
+  let n_gen = (prog.n_res - prog.n_src) as usize;
+  let n_tasks = prog.n_tasks();
+  let g = if n_gen == 0 || rd.chance(1, 5) {
+    prog.n_res += 1;
+    prog.writers.push(rd.pick(n_tasks) as TaskId);
+    prog.n_res - 1
+  } else {
+    prog.n_src + rd.pick(n_gen) as ResId
+  };
+  let w = prog.writers[(g - prog.n_src) as usize];
+  let body = &mut prog.tasks[w as usize].body;
+  strip_writes(body, g);
+  let via = if rd.chance(1, 4) { Via::WrittenTo } else { Via::Ctx };
+  let val = if rd.chance(1, 2) { Expr::Const(rd.pick(4) as u8) } else { Expr::Var(rd.pick(NVARS) as u8) };
+  let at = rd.pick(body.len() + 1);
+  body.insert(at, Stmt::Write { res: Target::Fixed(g), chk: RChk::Exact, faulty: false, val, via });
+  (g, w)
+}
+
+pub fn inject_hidden(case: &mut Case, stream: &[u16]) {
+  let mut rd = Rd::new(stream);
+  if case.prog.n_tasks() < 2 { case.prog.tasks.push(Script::default()); }
+  let (g, w) = unconditional_generated(&mut case.prog, &mut rd);
+  let n = case.prog.n_tasks();
+  let mut x = rd.pick(n) as TaskId;
+  if x == w { x = (w + 1) % n as TaskId; }
+  let chk = RCHKS[rd.pick(RCHKS.len())];
+  let body = &mut case.prog.tasks[x as usize].body;
+  let at = rd.pick(body.len() + 1);
+  body.insert(at, Stmt::Read { res: Target::Fixed(g), chk, faulty: false, var: rd.pick(NVARS) as u8 });
+  case.inject = Some(Inject::Hidden { g, writer: w, reader: x });
+}
+
+pub fn inject_overlap(case: &mut Case, stream: &[u16]) {
+  let mut rd = Rd::new(stream);
+  if case.prog.n_tasks() < 2 { case.prog.tasks.push(Script::default()); }
+  let (g, w) = unconditional_generated(&mut case.prog, &mut rd);
+  let n = case.prog.n_tasks();
+  let mut w2 = rd.pick(n) as TaskId;
+  if w2 == w { w2 = (w + 1) % n as TaskId; }
+  let via = if rd.chance(1, 3) { Via::WrittenTo } else { Via::Ctx };
+  let val = Expr::Const(rd.pick(4) as u8);
+  let body = &mut case.prog.tasks[w2 as usize].body;
+  // The second writer must not also read g (P2) - remove such reads at top level; nested reads of g cannot exist for a
+  // task that is not a legitimate reader unless w2 < w, in which case they are kept (they require w first).
+  let at = rd.pick(body.len() + 1);
+  body.insert(at, Stmt::Write { res: Target::Fixed(g), chk: RChk::Exact, faulty: false, val, via });
+  case.inject = Some(Inject::Overlap { g, w1: w, w2 });
+}
+
+fn may_require(block: &[Stmt], out: &mut BTreeSet<TaskId>) {
+  for s in block {
+    match s {
+      Stmt::Require { task: Target::Fixed(u), .. } => { out.insert(*u); }
+      Stmt::Require { task: Target::Dyn { base, span, .. }, .. } => { for u in *base..*base + *span { out.insert(u); } }
+      Stmt::If { then, els, .. } => { may_require(then, out); may_require(els, out); }
+      _ => {}
+    }
+  }
+}
+
+pub fn inject_cycle(case: &mut Case, stream: &[u16]) {
+  let mut rd = Rd::new(stream);
+  let n = case.prog.n_tasks();
+  // may-reach relation over the static require structure
+  let direct: Vec<BTreeSet<TaskId>> = case.prog.tasks.iter().map(|t| { let mut s = BTreeSet::new(); may_require(&t.body, &mut s); s }).collect();
+  let mut pairs: Vec<(TaskId, TaskId)> = vec![];
+  for l in 0..n {
+    let mut seen = BTreeSet::new();
+    let mut stack = vec![l as TaskId];
+    while let Some(x) = stack.pop() {
+      for y in direct[x as usize].iter() { if seen.insert(*y) { stack.push(*y); } }
+    }
+    for u in seen { pairs.push((u, l as TaskId)); }
+  }
+  // (from = U, to = L): U requires L, where L may reach U. Self loops are always available.
+  for t in 0..n { pairs.push((t as TaskId, t as TaskId)); }
+  // Prefer real cycles of length >= 2 (they come first in the list) most of the time.
+  let non_self = pairs.len() - n;
+  let (from, to) = if non_self > 0 && !rd.chance(1, 6) { pairs[rd.pick(non_self)] } else { pairs[non_self + rd.pick(n)] };
+  let chk = OCHKS[rd.pick(OCHKS.len())];
+  let req = Stmt::Require { task: Target::Fixed(to), chk, var: rd.pick(NVARS) as u8 };
+  let guarded = case.prog.n_src > 0 && rd.chance(1, 2);
+  let body = &mut case.prog.tasks[from as usize].body;
+  let at = rd.pick(body.len() + 1);
+  if guarded {
+    let src = rd.pick(case.prog.n_src as usize) as ResId;
+    let var = 3;
+    let cond = match rd.pick(3) {
+      0 => Expr::Lt(Box::new(Expr::Var(var)), Box::new(Expr::Const(2))),
+      1 => Expr::Lt(Box::new(Expr::Const(1)), Box::new(Expr::Var(var))),
+      _ => Expr::Eq(Box::new(Expr::Var(var)), Box::new(Expr::Const(1 + rd.pick(4) as u8))),
+    };
+    body.insert(at, Stmt::If { cond, then: vec![req], els: vec![] });
+    body.insert(at, Stmt::Read { res: Target::Fixed(src), chk: RChk::Exact, faulty: false, var });
+  } else {
+    body.insert(at, req);
+  }
+  case.inject = Some(Inject::Cycle { from, to, guarded });
+}
+
+#[derive(Clone, Copy, Debug, PartialEq, Eq)]
+pub enum InjectKind { Hidden, Overlap, Cycle }
+
+/// `plain_share` out of 10 cases stay un-injected (negative half).
+pub fn injected_case_strategy(cfg: GenCfg, kind: InjectKind, plain_share: u32) -> impl Strategy<Value=Case> {
+  (genome_strategy(&cfg), proptest::collection::vec(any::<u16>(), 12), 0u32..10).prop_map(move |(g, inj, roll)| {
+    let mut case = build_case(&g, &cfg);
+    if roll >= plain_share {
+      match kind {
+        InjectKind::Hidden => inject_hidden(&mut case, &inj),
+        InjectKind::Overlap => inject_overlap(&mut case, &inj),
+        InjectKind::Cycle => inject_cycle(&mut case, &inj),
+      }
+      // Histories were built for the original task count; roots stay valid (tasks are only added).
+    }
+    case
+  })
 }
